@@ -105,7 +105,7 @@ func (h *Header) Contains(h2 *Header) bool {
 	if h.UUID.String() != h2.UUID.String() {
 		return false
 	}
-	if h2.Digest != nil && h.Digest.String() != h2.Digest.String() {
+	if h2.Digest != nil && (h.Digest == nil || h.Digest.String() != h2.Digest.String()) {
 		return false
 	}
 	for _, s2 := range h2.Stamps {
